@@ -328,6 +328,8 @@ func c19Run(c *Ctx) {
 		Lines(Print("1\u09e8 + \u09e81"), Print("3.\u09e7\u09ea"), Var("\u09a6\u09be\u09ae", "\u09e7\u09e80"), Print("\u09a6\u09be\u09ae * 2")),
 		Lines(Var("t", "0"), For(Var("i", "0"), "i < 3", "i = i + 1", "{ t = t + i; }"), Print("t"), "/* block */ // line", Print(`"fin"`)),
 		Lines(Fun("f", "", ""), "f();", "{ }", ";", If(False(), Print("1")), Print("nil")),
+		// printing a value that is not itself on a cycle but holds members that are
+		Lines(Var("dhaka", `{name: "D"}`), Var("khulna", `{name: "K"}`), "dhaka.next = khulna;", "khulna.next = dhaka;", Var("cities", "[dhaka, khulna]"), Print("cities"), Print("{all: cities}"), Var("ring", "[1]"), "ring[0] = ring;", Print("[ring]"), Print(BI("values", "{r: ring}")), Print(`"end"`)),
 		// blocks whose only declarations are declaration lists, entered repeatedly and side by side
 		Lines(For(Var("i", "0"), "i < 3", "i = i + 1", "{ "+K["var"]+" a = i, b = i * 2; "+Print("a + b")+" }"), Var("n", "0"), While("n < 2", "{ "+K["var"]+" p = n, q; n = n + 1; "+Print("p")+" }"),
 			Fun("g", "x", " "+IfElse("x", "{ "+K["var"]+" u = 1, v = 2; "+Ret("u + v")+" }", "{ "+K["var"]+" u = 3, v = 4; "+Ret("u * v")+" }")+" "), Print("g(1) + g(0)"), Var("u", `"outer"`), "{ "+K["var"]+" u = 5, w = 6; "+Print("u + w")+" }", Print("u")),
